@@ -800,6 +800,28 @@ theorem tbw_setLimit_inv {w : TBW} {ap : Item} {gs ob : Bound} {s : Schema} (hs 
         · simp [TBW.addTokens, TBW.recover, hu, a5, Lim.kind]
         · simp [judgeTBSet, he, ha, hu, TBW.addTokens, TBW.recover, a5]
 
+/-- `tokenBucketWrapper.SetLimit` touches `tokenInflight` only by giving the answered request's tokens back — on every
+    path, the error path included (a failed request is no longer being acquired) -/
+theorem tbw_setLimit_tokenInflight {w w' : TBW} {loc : Schema} {mt : Meter} {r : Reply} {b : Bool}
+    (h : w.setLimit loc mt r = .ok (w', b)) : w'.tokenInflight = (w.noteRequest r).tokenInflight := by
+  unfold TBW.setLimit at h
+  simp only [] at h
+  cases he : r.err with
+  | tooOld => simp only [he, Except.ok.injEq, Prod.mk.injEq] at h; rw [← h.1]
+  | other =>
+    simp only [he] at h
+    split at h
+    · split at h
+      · cases h
+      · simp only [Except.ok.injEq, Prod.mk.injEq] at h; rw [← h.1]; rfl
+    · simp only [Except.ok.injEq, Prod.mk.injEq] at h; rw [← h.1]
+  | none =>
+    simp only [he, Except.ok.injEq, Prod.mk.injEq] at h
+    rw [← h.1]
+    split
+    · simp only [TBW.addTokens, TBW.recover]; split <;> rfl
+    · rfl
+
 /-! ## readiness -/
 
 theorem failRunStart_false (t : Int) (rest : List (Bool × Int)) :
@@ -1024,7 +1046,7 @@ structure FlInv (cfg : Cfg) (st : State) (m : Mon) : Prop where
   must : m.mustEvent = true → ∃ c g, st.cache = some c ∧ gfcOf st = some g ∧ GFC.wkind g ≠ 1 ∧ c.cnt.event = true
   held : m.held = heldOf st.cache st.handles
   nodup : (st.handles.map (·.id)).Nodup
-  gens : ∀ c, st.cache = some c → ∀ h ∈ st.handles, h.side = .rem → h.gen ≤ c.fl.remOuter
+  gens : ∀ c, st.cache = some c → ∀ h ∈ st.handles, h.side = .rem → h.gen ≤ c.fl.remOuter ∧ h.inner ≤ c.fl.remInner
   nocache : st.cache = none → ∀ h ∈ st.handles, h.side = .dflt
   cur : m.tainted = false → ∀ c, st.cache = some c →
     c.fl.remCount = (st.handles.countP (flagOf c) : Int) ∧
@@ -1826,9 +1848,9 @@ theorem flInv_sync {K : Kind} {cfg : Cfg} {st : State} {m : Mon} {c : Cache} {s 
     (hsch : m.schema = some s) (heff : effective m op = true) (hitem : syncItem m op = some i) (hT : itemType i = K)
     (hop : op = .reconcileCount ∨ ∃ item, op = .answer true item)
     (hrs : remoteSync (c.remote.getD {}) s i = .ok r') (happ : r'.appliedConfig = some (boundByGlobalLimit s i))
-    (hcnt : cnt' = if remoteRecreates (c.remote.getD {}) s i then { event := false, lastSync := unixS st.clock } else c.cnt) :
-    FlInv cfg { st with cache := some { c with remote := some r', cnt := cnt',
-        fl := flightAfterSync c.fl c.remote.isNone (remoteRecreates (c.remote.getD {}) s i) } } (m.next op o) := by
+    (hcnt : cnt' = if remoteRecreates (c.remote.getD {}) s i then { event := false, lastSync := unixS st.clock } else c.cnt)
+    (fl' : Flight) (hfl' : fl' = flightAfterSync c.fl c.remote.isNone (remoteRecreates (c.remote.getD {}) s i)) :
+    FlInv cfg { st with cache := some { c with remote := some r', cnt := cnt', fl := fl' } } (m.next op o) := by
   have hrb := rebuilds_eq hi hcache hsch heff hitem hT
   have hst : stopsRemote m op = false := by rcases hop with rfl | ⟨item, rfl⟩ <;> rfl
   have hc := hi.cache
@@ -1862,10 +1884,12 @@ theorem flInv_sync {K : Kind} {cfg : Cfg} {st : State} {m : Mon} {c : Cache} {s 
       | none => rw [hrm] at hg1; simp at hg1
       | some r => rfl
     have hfl : flightAfterSync c.fl c.remote.isNone false = c.fl := by
-      simp [flightAfterSync, hsome]
-    rw [hrc] at mowed mmust mheld mtaint hcnt
+      have : c.remote.isNone = false := by cases hr : c.remote <;> simp [hr] at hsome ⊢
+      simp [flightAfterSync, this]
+    rw [hrc] at mowed mmust mheld mtaint hcnt hfl'
     simp only [Bool.false_eq_true, if_false, Bool.not_false, Bool.and_true, Bool.false_and, Bool.or_false] at mowed mmust mheld mtaint hcnt
-    rw [hfl]
+    rw [hfl] at hfl'
+    subst hfl'
     have hgf : gfcOf st = some g := by
       cases hrm : c.remote with
       | none => rw [hrm] at hsome; cases hsome
@@ -1904,21 +1928,19 @@ theorem flInv_sync {K : Kind} {cfg : Cfg} {st : State} {m : Mon} {c : Cache} {s 
   | true =>
     -- rebuilt: a new limiter with an empty bucket, a new counter
     obtain ⟨g', hg1, hg2⟩ := remoteSync_recreate hrc hrs
-    rw [hrc] at mowed mmust mheld mtaint hcnt
+    rw [hrc] at mowed mmust mheld mtaint hcnt hfl'
     simp only [if_true, Bool.not_true, Bool.and_false, Bool.true_and] at mowed mmust mheld mtaint hcnt
     have hgens := hi.fl.gens c hcache
-    have hflag : ∀ h ∈ st.handles, flagOf { c with remote := some r', cnt := cnt',
-        fl := flightAfterSync c.fl c.remote.isNone true } h = false := by
+    have hflag : ∀ h ∈ st.handles, flagOf { c with remote := some r', cnt := cnt', fl := fl' } h = false := by
       intro h hh
       by_cases hside : h.side = .rem
       · have := hgens h hh hside
-        simp only [flagOf, flightAfterSync]
+        simp only [flagOf, hfl', flightAfterSync]
         cases c.remote.isNone <;> simp <;> omega
       · simp [flagOf, hside]
     refine ⟨hi.fl.cfgv, ?_, ?_, ?_, ?_, hi.fl.nodup, ?_, fun h => (by cases h), ?_⟩
     · intro x r hx hr
-      have : x = { c with remote := some r', cnt := cnt', fl := flightAfterSync c.fl c.remote.isNone true } := by
-        simpa using hx.symm
+      have : x = { c with remote := some r', cnt := cnt', fl := fl' } := by simpa using hx.symm
       subst this
       have : r = r' := by simpa using hr.symm
       subst this; rw [mapp, happ]
@@ -1936,30 +1958,41 @@ theorem flInv_sync {K : Kind} {cfg : Cfg} {st : State} {m : Mon} {c : Cache} {s 
       intro h hh
       simp [hflag h hh]
     · intro x hx h hh hside
-      have : x = { c with remote := some r', cnt := cnt', fl := flightAfterSync c.fl c.remote.isNone true } := by
-        simpa using hx.symm
+      have : x = { c with remote := some r', cnt := cnt', fl := fl' } := by simpa using hx.symm
       subst this
       have := hgens h hh hside
-      simp only [flightAfterSync]
+      simp only [hfl', flightAfterSync]
       cases c.remote.isNone <;> simp <;> omega
     · intro ht x hx
-      have : x = { c with remote := some r', cnt := cnt', fl := flightAfterSync c.fl c.remote.isNone true } := by
-        simpa using hx.symm
+      have : x = { c with remote := some r', cnt := cnt', fl := fl' } := by simpa using hx.symm
       subst this
       refine ⟨?_, ?_⟩
-      · have hz : st.handles.countP (flagOf { c with remote := some r', cnt := cnt',
-            fl := flightAfterSync c.fl c.remote.isNone true }) = 0 := by
+      · have hz : st.handles.countP (flagOf { c with remote := some r', cnt := cnt', fl := fl' }) = 0 := by
           rw [List.countP_eq_zero]; intro h hh; simp [hflag h hh]
         rw [hz]
-        simp only [flightAfterSync]
+        simp only [hfl', flightAfterSync]
         cases c.remote.isNone <;> simp
-      · intro h hh _ _ _
-        have hf := hflag h hh
-        -- every request of the old limiter would have tainted the monitor: there is none
+      · intro h hh hside hgen _
+        -- a request of the old limiter would have tainted the monitor: there is none
         rw [mtaint] at ht
         simp only [Bool.or_eq_false_iff] at ht
-        false_or_by_contra
-        sorry
+        have hle := hgens h hh hside
+        cases hn : c.remote.isNone with
+        | true =>
+          exfalso
+          simp only [hfl', flightAfterSync, hn, if_true] at hgen
+          omega
+        | false =>
+          exfalso
+          have hsome : c.remote.isSome = true := by cases hr : c.remote <;> simp [hr] at hn ⊢
+          have hgen' : h.gen = c.fl.remOuter := by simpa [hfl', flightAfterSync, hn] using hgen
+          have hin := (hi.fl.cur ht.1 c hcache).2 h hh hside hgen' hsome
+          have hfl1 : flagOf c h = true := by simp [flagOf, hside, hgen', hin, hsome]
+          have hany : m.held.any (·.2) = true := by
+            rw [hi.fl.held, hcache]
+            simp only [heldOf, List.any_map, List.any_eq_true]
+            exact ⟨h, hh, hfl1⟩
+          rw [hany] at ht; cases ht.2
 
 theorem step_reconcile {K : Kind} {cfg : Cfg} {st : State} {m : Mon} (hi : Inv K cfg st m) :
     StepOK K cfg st m .reconcileCount := by
@@ -1985,13 +2018,17 @@ theorem step_reconcile {K : Kind} {cfg : Cfg} {st : State} {m : Mon} (hi : Inv K
           obtain ⟨cnt', hcnt'⟩ : ∃ x : Counter, x = (if remoteRecreates (c.remote.getD {}) s
               { strategy := Strategy.count, mi := s.gmi, tb := s.gtb }
               then { event := false, lastSync := unixS st.clock } else c.cnt) := ⟨_, rfl⟩
+          obtain ⟨fl', hfl'⟩ : ∃ x : Flight, x = flightAfterSync c.fl c.remote.isNone (remoteRecreates (c.remote.getD {}) s
+              { strategy := Strategy.count, mi := s.gmi, tb := s.gtb }) := ⟨_, rfl⟩
           obtain ⟨r', g', e1, e2, e3, e4, e5⟩ := inv_of_sync hi hcache hsch
-            { strategy := s.strategy, mi := s.gmi, tb := s.gtb } (VS_globalItem h2) cnt'
-          refine ⟨{ st with cache := some { c with remote := some r', cnt := cnt' } }, ?_, ?_, rfl⟩
+            { strategy := s.strategy, mi := s.gmi, tb := s.gtb } (VS_globalItem h2) cnt' fl'
+          have hitem : syncItem m .reconcileCount = some { strategy := s.strategy, mi := s.gmi, tb := s.gtb } := by
+            simp [syncItem, hsch]
+          refine ⟨{ st with cache := some { c with remote := some r', cnt := cnt', fl := fl' } }, ?_, ?_, rfl⟩
           · simp only [step, hcache, h1, hcount, ne_eq, not_true_eq_false, if_false, hen, Bool.not_true,
               Bool.false_eq_true, cacheRemoteSync, bind, Except.bind]
             rw [h1, hcount] at e1
-            rw [e1, hcnt']; rfl
+            rw [e1, hcnt', hfl']; rfl
           · apply e5
             · simp [Mon.next, hsch]
             · simp [Mon.next, heff]
@@ -2004,6 +2041,10 @@ theorem step_reconcile {K : Kind} {cfg : Cfg} {st : State} {m : Mon} (hi : Inv K
             · simp [Mon.next, leaderChange]; exact hi.leader
             · exact cntInv_sync _ hi.cnt hcache rfl hcnt' (by simp [Mon.next]; exact hi.cnt.clock)
                 (by simp [Mon.next, heff]) (by simp [Mon.next])
+            · rw [h1] at e1
+              refine flInv_sync _ hi hcache hsch heff hitem (VS_globalItem h2) (Or.inl rfl) e1 e3 ?_ fl' ?_
+              · rw [hcnt', hcount]
+              · rw [hfl', hcount]
         · have hen' : enableGlobal s = false := by simpa using hen
           exact step_noop hi _ (by simp [step, hcache, h1, hcount, hen']) (by simp [effective, hsch, hen'])
             rfl ⟨rfl, rfl, rfl, rfl, rfl⟩ rfl
@@ -2038,14 +2079,16 @@ theorem step_answer {K : Kind} {cfg : Cfg} {st : State} {m : Mon} (hi : Inv K cf
         · have heff : effective m (.answer true item) = true := by simp [effective, hsch, hen, hty]
           obtain ⟨cnt', hcnt'⟩ : ∃ x : Counter, x = (if remoteRecreates (c.remote.getD {}) s item
               then { event := false, lastSync := unixS st.clock } else c.cnt) := ⟨_, rfl⟩
-          obtain ⟨r', g', e1, e2, e3, e4, e5⟩ := inv_of_sync hi hcache hsch item (by rw [hty]; exact VS_guess h2) cnt'
-          have hg : gfcOf { st with cache := some { c with remote := some r', cnt := cnt' } } = some g' := by
+          obtain ⟨fl', hfl'⟩ : ∃ x : Flight, x = flightAfterSync c.fl c.remote.isNone
+              (remoteRecreates (c.remote.getD {}) s item) := ⟨_, rfl⟩
+          obtain ⟨r', g', e1, e2, e3, e4, e5⟩ := inv_of_sync hi hcache hsch item (by rw [hty]; exact VS_guess h2) cnt' fl'
+          have hg : gfcOf { st with cache := some { c with remote := some r', cnt := cnt', fl := fl' } } = some g' := by
             simp [gfcOf, e2]
-          refine ⟨{ st with cache := some { c with remote := some r', cnt := cnt' } }, ?_, ?_, ?_⟩
+          refine ⟨{ st with cache := some { c with remote := some r', cnt := cnt', fl := fl' } }, ?_, ?_, ?_⟩
           · simp only [step, hcache, h1, hen, Bool.not_true, Bool.false_eq_true, if_false, hty, ne_eq,
               not_true_eq_false, cacheRemoteSync, bind, Except.bind]
             rw [h1] at e1
-            rw [e1, hcnt']; rfl
+            rw [e1, hcnt', hfl']; rfl
           · apply e5
             · simp [Mon.next, hsch]
             · simp [Mon.next, heff]
@@ -2058,6 +2101,9 @@ theorem step_answer {K : Kind} {cfg : Cfg} {st : State} {m : Mon} (hi : Inv K cf
             · simp [Mon.next, leaderChange]; exact hi.leader
             · exact cntInv_sync _ hi.cnt hcache rfl hcnt' (by simp [Mon.next]; exact hi.cnt.clock)
                 (by simp [Mon.next, heff]) (by simp [Mon.next])
+            · rw [h1] at e1
+              exact flInv_sync _ hi hcache hsch heff rfl (by rw [hty]; exact VS_guess h2) (Or.inr ⟨item, rfl⟩) e1 e3 hcnt'
+                fl' hfl'
           · simp only [judgeTrans, heff, Bool.true_and, hsch, observe_wkind, observe_rlim, hg, Option.map_some,
               Option.getD_some]
             cases g' with
@@ -2088,10 +2134,12 @@ theorem observe_tbw {cfg : Cfg} {st : State} {w : TBW} (h : gfcOf st = some (.tb
 
 /-- the wrapper is replaced by one that satisfies the wrapper invariant for the same applied item -/
 theorem inv_of_setLimit {K : Kind} {cfg : Cfg} {st : State} {m : Mon} {c : Cache} {s : Schema} {rm : Remote}
-    {i ap : Item} {g' : GFC} {b : Bool} (r : Reply) (hi : Inv K cfg st m) (hcache : st.cache = some c)
+    {i ap : Item} {g g' : GFC} {b : Bool} (r : Reply) (hi : Inv K cfg st m) (hcache : st.cache = some c)
     (hsch : m.schema = some s) (hrm : c.remote = some rm) (q1 : rm.remoteConfig = some i)
     (q2 : rm.appliedConfig = some ap) (q4 : itemType ap = K) (q5 : ItemLe ap m.gs)
-    (hg : GInv g' ap (obAfter m.ob m.gs g'.unavail)) (hk : g'.inner.kind = K) :
+    (hg : GInv g' ap (obAfter m.ob m.gs g'.unavail)) (hk : g'.inner.kind = K)
+    (q3 : rm.fc = some g) (hwk : GFC.wkind g' = GFC.wkind g)
+    (htok : ∀ w', g' = .tbw w' → ∃ w, g = .tbw w ∧ w'.tokenInflight = (w.noteRequest r).tokenInflight) :
     Inv K cfg { st with cache := some { c with remote := some { rm with fc := some g' } }, lastRet := b }
       (m.next (.setLimit r)
         (observe cfg { st with cache := some { c with remote := some { rm with fc := some g' } }, lastRet := b })) := by
@@ -2107,9 +2155,39 @@ theorem inv_of_setLimit {K : Kind} {cfg : Cfg} {st : State} {m : Mon} {c : Cache
       (observe cfg { st with cache := some { c with remote := some { rm with fc := some g' } }, lastRet := b })).ob
       = obAfter m.ob m.gs g'.unavail := by
     simp only [Mon.next, effective, Bool.false_eq_true, if_false, hun]; rfl
+  have hgf0 : gfcOf st = some g := by simp [gfcOf, hcache, hrm, q3]
+  have hpw : m.prev.wkind = GFC.wkind g := by rw [hi.prev, observe_wkind, hgf0]; rfl
+  have hflinv : FlInv cfg { st with cache := some { c with remote := some { rm with fc := some g' } }, lastRet := b }
+      (m.next (.setLimit r)
+        (observe cfg { st with cache := some { c with remote := some { rm with fc := some g' } }, lastRet := b })) := by
+    have hrb : rebuilds m (.setLimit r) = false := by simp [rebuilds, effective]
+    refine flInv_cache (c' := { c with remote := some { rm with fc := some g' } }) hi.fl hcache rfl rfl rfl rfl
+      (by simp [hrm]) ?_ ?_ ?_ (by simp [Mon.next, hrb, stopsRemote]) (by simp [Mon.next, hrb, stopsRemote])
+    · intro r0 hr0
+      have : r0 = { rm with fc := some g' } := by simpa using hr0.symm
+      subst this
+      simp only [Mon.next, effective, Bool.false_eq_true, if_false]
+      exact hi.fl.applied c rm hcache hrm
+    · intro w' hw'
+      rw [hgf] at hw'
+      have hg' : g' = .tbw w' := Option.some.inj hw'
+      obtain ⟨w, hw, htk⟩ := htok w' hg'
+      subst hw
+      have ho := hi.fl.owed w hgf0
+      simp only [Mon.next, hrb, stopsRemote, Bool.or_self, Bool.false_eq_true, if_false, hpw, GFC.wkind, if_true]
+      rw [htk, TBW.noteRequest]
+      split <;> simp [ho]
+    · intro hm
+      simp only [Mon.next, hrb, stopsRemote] at hm
+      obtain ⟨c0, g0, k1, k2, k3, k4⟩ := hi.fl.must (by simpa using hm)
+      have : c0 = c := by rw [hcache] at k1; exact (Option.some.inj k1).symm
+      subst this
+      have : g0 = g := by rw [hgf0] at k2; exact (Option.some.inj k2).symm
+      subst this
+      exact ⟨g', hgf, by rw [hwk]; exact k3, k4⟩
   refine ⟨?_, hi.meterOK, ?_, ?_, rfl, ?_, ?_, ?_, ?_, (by simp [Mon.next, leaderChange]; exact hi.leader),
     cntInv_cache hi.cnt hcache rfl rfl (by simp [Mon.next]; exact hi.cnt.clock) (by simp [Mon.next, effective])
-      (by simp [Mon.next])⟩
+      (by simp [Mon.next]), hflinv⟩
   · simp [Mon.next]; exact hi.meter
   · simp [Mon.next]; exact hi.shards
   · simp [Mon.next, leaderChange]; exact hi.hb
@@ -2149,7 +2227,7 @@ theorem step_setLimit {K : Kind} {cfg : Cfg} {st : State} {m : Mon} (hi : Inv K 
   unfold CInv at hc
   have noop : gfcOf st = none → step st (.setLimit r) = .ok st → StepOK K cfg st m (.setLimit r) := by
     intro hg hs
-    refine step_noop hi _ hs rfl rfl ⟨rfl, rfl, rfl, rfl, rfl⟩ ?_
+    refine step_noop hi _ hs rfl rfl ⟨rfl, rfl, rfl, rfl, rfl⟩ ?_ rfl (fun _ _ => observe_wkind0 hg)
     simp [judgeTrans, judgeSetLimit, hi.prev, observe_wkind0 hg]
   cases hcache : st.cache with
   | none => exact noop (by simp [gfcOf, hcache]) (by simp [step, hcache])
@@ -2167,7 +2245,7 @@ theorem step_setLimit {K : Kind} {cfg : Cfg} {st : State} {m : Mon} (hi : Inv K 
         cases g with
         | empty l =>
           refine ⟨_, ?_, inv_of_setLimit (g' := .empty l) (b := false) r hi hcache hsch hrm q1 q2 q4 q5
-            (GInv_obAfter _ q6) q7, ?_⟩
+            (GInv_obAfter _ q6) q7 q3 rfl (fun w' h => (by cases h)), ?_⟩
           · simp [step, hcache, hrm, q3, gfcSetLimit]
           · have : (observe cfg st).wkind = 1 := by rw [observe_wkind, hgf]; rfl
             simp [judgeTrans, judgeSetLimit, hi.prev, this]
@@ -2178,7 +2256,8 @@ theorem step_setLimit {K : Kind} {cfg : Cfg} {st : State} {m : Mon} (hi : Inv K 
           subst hKm
           obtain ⟨w', e1, e2, e3, e4⟩ := miw_setLimit_inv h2 q6 q5 hi.gsOK st.meter.maxInflight r
           obtain ⟨p1, p2, p3, p4, p5, p6⟩ := observe_miw (cfg := cfg) hgf
-          refine ⟨_, ?_, inv_of_setLimit (g' := .miw w') (b := false) r hi hcache hsch hrm q1 q2 q4 q5 e2 e3, ?_⟩
+          refine ⟨_, ?_, inv_of_setLimit (g' := .miw w') (b := false) r hi hcache hsch hrm q1 q2 q4 q5 e2 e3 q3 rfl
+            (fun w' h => (by cases h)), ?_⟩
           · simp [step, hcache, hrm, q3, gfcSetLimit, h1, e1, bind, Except.bind, pure, Except.pure]
           · have hg' : gfcOf { st with cache := some { c with remote := some { rm with fc := some (.miw w') } }, lastRet := false }
                 = some (.miw w') := by simp [gfcOf]
@@ -2193,7 +2272,8 @@ theorem step_setLimit {K : Kind} {cfg : Cfg} {st : State} {m : Mon} (hi : Inv K 
           subst hKt
           obtain ⟨w', b, e1, e2, e3, e4⟩ := tbw_setLimit_inv h2 q6 q5 hi.gsOK st.meter hi.meterOK r
           obtain ⟨p1, p2, p3, p4, p5⟩ := observe_tbw (cfg := cfg) hgf
-          refine ⟨_, ?_, inv_of_setLimit (g' := .tbw w') (b := b) r hi hcache hsch hrm q1 q2 q4 q5 e2 e3, ?_⟩
+          refine ⟨_, ?_, inv_of_setLimit (g' := .tbw w') (b := b) r hi hcache hsch hrm q1 q2 q4 q5 e2 e3 q3 rfl
+            (fun w0 h => ⟨w, rfl, by cases h; exact tbw_setLimit_tokenInflight e1⟩), ?_⟩
           · simp [step, hcache, hrm, q3, gfcSetLimit, h1, e1, bind, Except.bind, pure, Except.pure]
           · have hg' : gfcOf { st with cache := some { c with remote := some { rm with fc := some (.tbw w') } }, lastRet := b }
                 = some (.tbw w') := by simp [gfcOf]
@@ -2209,12 +2289,12 @@ theorem step_sync {K : Kind} {cfg : Cfg} {st : State} {m : Mon} (hi : Inv K cfg 
   have hl := hi.leader
   -- all four outcomes leave the cache alone and set the clock
   have frame : ∀ st' : State, step st (.sync fail n leader now) = .ok st' → st'.cache = st.cache →
-      st'.meter = st.meter → st'.clock = now →
+      st'.meter = st.meter → st'.clock = now → st'.handles = st.handles → st'.cfgv = st.cfgv →
       (m.next (.sync fail n leader now) (observe cfg st')).shards = st'.shardCount →
       HBInv st'.hb (m.next (.sync fail n leader now) (observe cfg st')).hist →
       (m.next (.sync fail n leader now) (observe cfg st')).leader = st'.leader →
       StepOK K cfg st m (.sync fail n leader now) := by
-    intro st' hstep hc hm hck hsh hhb hld
+    intro st' hstep hc hm hck hhn hcv hsh hhb hld
     refine ⟨st', hstep, ?_, rfl⟩
     apply inv_of_frame hi (st' := st')
     · exact hc
@@ -2230,27 +2310,30 @@ theorem step_sync {K : Kind} {cfg : Cfg} {st : State} {m : Mon} (hi : Inv K cfg 
     · exact hld
     · exact cntInv_frame hi.cnt hc (by simp [Mon.next]; exact hck.symm) (by simp [Mon.next, effective])
         (by simp [Mon.next])
+    · exact flInv_frame hi.fl hc hhn hcv (by simp [Mon.next, effective]) (by simp [Mon.next, rebuilds, effective, stopsRemote])
+        (by simp [Mon.next, rebuilds, effective, stopsRemote]) (by simp [Mon.next, rebuilds, effective, stopsRemote])
+        (by simp [Mon.next, rebuilds, effective, stopsRemote])
   cases fail with
   | true =>
-    apply frame { st with clock := now } rfl rfl rfl rfl
+    apply frame { st with clock := now } rfl rfl rfl rfl rfl rfl
     · simp [Mon.next]; exact hi.shards
     · simp [Mon.next, leaderChange]; exact hi.hb
     · simp [Mon.next, leaderChange]; exact hi.leader
   | false =>
     cases leader with
     | none =>
-      apply frame { st with shardCount := n, clock := now } rfl rfl rfl rfl
+      apply frame { st with shardCount := n, clock := now } rfl rfl rfl rfl rfl rfl
       · simp [Mon.next]
       · simp [Mon.next, leaderChange]; exact hi.hb
       · simp [Mon.next, leaderChange]; exact hi.leader
     | some l =>
       by_cases hne : st.leader = l
-      · apply frame { st with shardCount := n, clock := now } (by simp [step, hne]) rfl rfl rfl
+      · apply frame { st with shardCount := n, clock := now } (by simp [step, hne]) rfl rfl rfl rfl rfl
         · simp [Mon.next]
         · simp [Mon.next, leaderChange, hl, hne]; exact hi.hb
         · simp [Mon.next, leaderChange, hl, hne]
       · apply frame { st with shardCount := n, leader := l, hb := some (hbStep (st.hb.getD {}) true now), clock := now }
-          (by simp [step, hne]) rfl rfl rfl
+          (by simp [step, hne]) rfl rfl rfl rfl rfl
         · simp [Mon.next]
         · simp [Mon.next, leaderChange, hl, hne]; exact hbStep_inv hi.hb true now
         · simp [Mon.next, leaderChange, hl, hne]
@@ -2316,8 +2399,18 @@ theorem inv_of_cnt {K : Kind} {cfg : Cfg} {st st' : State} {m m' : Mon} {c : Cac
 
 theorem step_event {K : Kind} {cfg : Cfg} {st : State} {m : Mon} (hi : Inv K cfg st m) : StepOK K cfg st m .event := by
   -- either nothing changes, or the counter's event flag is raised
-  have quiet : step st .event = .ok st → StepOK K cfg st m .event := by
-    intro hs
+  have hrb : rebuilds m .event = false := by simp [rebuilds, effective]
+  have quiet : step st .event = .ok st → ((observe cfg st).wkind ≠ 2 ∧ (observe cfg st).wkind ≠ 3) →
+      StepOK K cfg st m .event := by
+    intro hs hw
+    have hmf : m.mustEvent = false := by
+      cases hm : m.mustEvent with
+      | false => rfl
+      | true =>
+        obtain ⟨c0, g, _, k2, k3, _⟩ := hi.fl.must hm
+        have : (observe cfg st).wkind = GFC.wkind g := by rw [observe_wkind, k2]; rfl
+        rw [this] at hw
+        cases g <;> simp [GFC.wkind] at hw k3
     refine ⟨st, hs, ?_, rfl⟩
     apply inv_of_frame hi (st' := st)
     · rfl
@@ -2334,6 +2427,12 @@ theorem step_event {K : Kind} {cfg : Cfg} {st : State} {m : Mon} (hi : Inv K cfg
     · refine ⟨by simp [Mon.next]; exact hi.cnt.clock, by simp [Mon.next, effective]; exact hi.cnt.contact0, ?_, ?_⟩
       · intro c hc; simp [Mon.next, effective]; exact hi.cnt.contact c hc
       · intro c hc _; simp [Mon.next]
+    · apply flInv_frame hi.fl rfl rfl rfl
+      · simp [Mon.next, effective]
+      · simp [Mon.next, hrb, stopsRemote]
+      · simp [Mon.next, hi.prev, hw.1, hw.2, hmf]
+      · simp [Mon.next, hrb, stopsRemote]
+      · simp [Mon.next, hrb, stopsRemote]
   have raised : ∀ c, st.cache = some c →
       step st .event = .ok { st with cache := some { c with cnt := { c.cnt with event := true } } } →
       StepOK K cfg st m .event := by
@@ -2356,17 +2455,41 @@ theorem step_event {K : Kind} {cfg : Cfg} {st : State} {m : Mon} (hi : Inv K cfg
         subst this
         simp [Mon.next, effective]; exact hi.cnt.contact c hcache
       · intro x hx _; simp [Mon.next]
+    · refine flInv_cache (c' := { c with cnt := { c.cnt with event := true } }) hi.fl hcache rfl rfl rfl rfl rfl ?_ ?_ ?_
+        (by simp [Mon.next, hrb, stopsRemote]) (by simp [Mon.next, hrb, stopsRemote])
+      · intro r hr; simp only [Mon.next, effective, Bool.false_eq_true, if_false]; exact hi.fl.applied c r hcache hr
+      · intro w hw
+        have hw' : gfcOf st = some (.tbw w) := by simpa [gfcOf, hcache] using hw
+        simp only [Mon.next, hrb, stopsRemote, Bool.or_self, Bool.false_eq_true, if_false]
+        have := hi.fl.owed w hw'
+        split <;> exact this
+      · intro hm
+        simp only [Mon.next, decide_eq_true_eq, hi.prev] at hm
+        cases hg : gfcOf st with
+        | none => rw [observe_wkind, hg] at hm; simp at hm
+        | some g =>
+          refine ⟨g, by simpa [gfcOf, hcache] using hg, ?_, rfl⟩
+          rw [observe_wkind, hg] at hm
+          intro h1; simp [h1] at hm
   cases hcache : st.cache with
-  | none => exact quiet (by simp [step, hcache])
+  | none =>
+    have hg0 : gfcOf st = none := by simp [gfcOf, hcache]
+    exact quiet (by simp [step, hcache]) (by rw [observe_wkind0 hg0]; simp)
   | some c =>
     cases hrm : c.remote with
-    | none => exact quiet (by simp [step, hcache, hrm])
+    | none =>
+      have hg0 : gfcOf st = none := by simp [gfcOf, hcache, hrm]
+      exact quiet (by simp [step, hcache, hrm]) (by rw [observe_wkind0 hg0]; simp)
     | some rm =>
       cases hfc : rm.fc with
-      | none => exact quiet (by simp [step, hcache, hrm, hfc])
+      | none =>
+        have hg0 : gfcOf st = none := by simp [gfcOf, hcache, hrm, hfc]
+        exact quiet (by simp [step, hcache, hrm, hfc]) (by rw [observe_wkind0 hg0]; simp)
       | some g =>
         cases g with
-        | empty l => exact quiet (by simp [step, hcache, hrm, hfc])
+        | empty l =>
+          have hg1 : gfcOf st = some (.empty l) := by simp [gfcOf, hcache, hrm, hfc]
+          exact quiet (by simp [step, hcache, hrm, hfc]) (by rw [observe_wkind, hg1]; simp [GFC.wkind])
         | miw w => exact raised c hcache (by simp [step, hcache, hrm, hfc])
         | tbw w => exact raised c hcache (by simp [step, hcache, hrm, hfc])
 
@@ -2416,10 +2539,17 @@ theorem GInv_addAcquiring {g : GFC} {ap : Item} {ob : Bound} (h : GInv g ap ob) 
   | miw w => exact ⟨h, rfl, rfl⟩
   | tbw w => exact ⟨h, rfl, rfl⟩
 
+theorem observe_tbw2 {cfg : Cfg} {st : State} {w : TBW} (h : gfcOf st = some (.tbw w)) :
+    (observe cfg st).wreserve = w.reserve ∧ (observe cfg st).tokens = w.tokens ∧
+    (observe cfg st).tokenBatch = w.tokenBatch ∧ (observe cfg st).lastAcq = w.lastAcquireTime := by
+  simp only [gfcOf] at h
+  simp only [observe, h]
+  exact ⟨trivial, trivial, trivial, trivial⟩
+
 /-- when a resync is due (by the monitor's upper bound of `lastSyncTime`) and no event can be pending, a count wrapper's
     counter sends a request -/
-theorem requestOf_due {g : GFC} {cnt : Counter} {mt : Meter} {now contact : Int} (hle : cnt.lastSync ≤ contact)
-    (hdue : unixS now - contact > 2) (hnone : requestOf g cnt mt now = none) :
+theorem requestOf_due {g : GFC} {cnt : Counter} {mt : Meter} {infl now contact : Int} (hle : cnt.lastSync ≤ contact)
+    (hdue : unixS now - contact > 2) (hnone : requestOf g cnt mt infl now = none) :
     (∃ l, g = .empty l) ∨ ((∃ w, g = .tbw w) ∧ cnt.event = true) := by
   have hd : unixS now - cnt.lastSync > 2 := by omega
   cases g with
@@ -2431,12 +2561,49 @@ theorem requestOf_due {g : GFC} {cnt : Counter} {mt : Meter} {now contact : Int}
     | true => rfl
     | false => simp [requestOf, hd, he] at hnone
 
+/-- **tokens are requested when there is demand and room**: a token-bucket count wrapper with a pending event whose
+    reserve has room for at least one batch (or whose last answer is old enough) asks for more than zero tokens -/
+theorem demand_hits {w : TBW} {cnt : Counter} {mt : Meter} {infl now : Int} (hev : cnt.event = true)
+    (hroom : i32sub (i32sub w.reserve w.tokens) w.tokenInflight > 0) (hb : w.tokenBatch ≥ 1)
+    (hor : i32sub (i32sub w.reserve w.tokens) w.tokenInflight ≥ w.tokenBatch ∨
+      now - w.lastAcquireTime ≥ batchAcquireMaxDuration) :
+    requestOf (.tbw w) cnt mt infl now = some (w.expectToken mt now) ∧ w.expectToken mt now > 0 := by
+  have hpos : w.expectToken mt now > 0 := by
+    simp only [TBW.expectToken, globalTokenBucketBatchAcquireMin]
+    generalize i32sub (i32sub w.reserve w.tokens) w.tokenInflight = room at hroom hor
+    have h0 : ¬ room < 0 := by omega
+    simp only [h0, if_false]
+    by_cases h1 : room < w.tokenBatch
+    · simp only [h1, if_true]
+      have : ¬ (now - w.lastAcquireTime < batchAcquireMaxDuration) := by
+        rcases hor with h | h
+        · omega
+        · omega
+      simp only [this, if_false]; exact hroom
+    · simp only [h1, if_false]
+      have hbatch : ∀ b : Int, (if b < 1 then 1 else b) > 0 := by intro b; split <;> omega
+      have key : ∀ batch : Int, batch > 0 → (if room > batch then batch else room) > 0 := by
+        intro batch hb; split <;> omega
+      apply key
+      split
+      · exact hbatch _
+      · omega
+  refine ⟨?_, hpos⟩
+  simp only [requestOf, hev, Bool.true_or, Bool.not_true, Bool.false_eq_true, if_false, Bool.false_and]
+  have : ¬ (w.expectToken mt now ≤ 0 ∧ True) := by intro h; omega
+  simp [this]
+
 theorem step_tick {K : Kind} {cfg : Cfg} {st : State} {m : Mon} (hi : Inv K cfg st m) (now : Int)
     (ans : Option TickAnswer) : StepOK K cfg st m (.tick now ans) := by
   have hprev := hi.prev
+  have hrb : rebuilds m (.tick now ans) = false := by simp [rebuilds, effective]
   cases hcache : st.cache with
   | none =>
     have hg0 : gfcOf st = none := by simp [gfcOf, hcache]
+    have hmf : m.mustEvent = false := by
+      cases hm : m.mustEvent with
+      | false => rfl
+      | true => obtain ⟨c0, _, k1, _⟩ := hi.fl.must hm; rw [hcache] at k1; cases k1
     refine ⟨{ st with clock := now, lastReq := none }, by simp [step, hcache], ?_, ?_⟩
     · apply inv_of_frame hi (st' := { st with clock := now, lastReq := none })
       · rfl
@@ -2452,7 +2619,16 @@ theorem step_tick {K : Kind} {cfg : Cfg} {st : State} {m : Mon} (hi : Inv K cfg 
       · simp [Mon.next, leaderChange]; exact hi.leader
       · refine ⟨by simp [Mon.next], ?_, fun c hc => by simp [hcache] at hc, fun c hc => by simp [hcache] at hc⟩
         cases ans <;> simp [Mon.next, effective, observe_req] <;> exact hi.cnt.contact0
-    · simp [judgeTrans, judgeTick, hprev, observe_wkind0 hg0, observe_req]
+      · apply flInv_frame hi.fl
+        · rfl
+        · rfl
+        · rfl
+        · simp [Mon.next, effective]
+        · simp [Mon.next, hrb, stopsRemote, hprev, observe_wkind0 hg0]
+        · simp [Mon.next, hmf]
+        · simp [Mon.next, hrb, stopsRemote]
+        · simp [Mon.next, hrb, stopsRemote]
+    · simp [judgeTrans, judgeTick, judgeDemand, hprev, observe_wkind0 hg0, observe_req]
   | some c =>
     have hc := hi.cache
     unfold CInv at hc
@@ -2461,11 +2637,44 @@ theorem step_tick {K : Kind} {cfg : Cfg} {st : State} {m : Mon} (hi : Inv K cfg 
     | some s =>
     rw [hcache, hsch] at hc
     obtain ⟨h1, h2, h3, h4, h5⟩ := hc
+    -- the demand clause: when its premise holds the round does ask for tokens
+    have demand : ∀ o : Obs, (∀ w, gfcOf st = some (.tbw w) → c.cnt.event = true →
+          i32sub (i32sub w.reserve w.tokens) w.tokenInflight > 0 → w.tokenBatch ≥ 1 →
+          (i32sub (i32sub w.reserve w.tokens) w.tokenInflight ≥ w.tokenBatch ∨
+            now - w.lastAcquireTime ≥ batchAcquireMaxDuration) → reqPositive o.req = true) →
+        judgeDemand m now o = [] := by
+      intro o ho
+      simp only [judgeDemand]
+      split
+      · rename_i hp
+        exfalso
+        obtain ⟨p1, p2, p3, p4, p5, p6⟩ := hp
+        obtain ⟨c0, g, k1, k2, k3, k4⟩ := hi.fl.must p2
+        have : c0 = c := by rw [hcache] at k1; exact (Option.some.inj k1).symm
+        subst this
+        rw [hprev, observe_wkind, k2] at p1
+        cases g with
+        | empty l => simp [GFC.wkind] at p1
+        | miw w => simp [GFC.wkind] at p1
+        | tbw w =>
+          obtain ⟨o1, o2, o3, o4⟩ := observe_tbw2 (cfg := cfg) k2
+          have hw := hi.fl.owed w k2
+          rw [hprev, o1, o2, ← hw] at p3
+          rw [hprev, o3] at p4
+          rw [hprev, o1, o2, o3, o4, ← hw] at p5
+          have := ho w k2 k4 p3 p4 p5
+          rw [this] at p6; cases p6
+      · rfl
     -- the outcomes without a request: only the event flag is cleared
     have quiet : step st (.tick now ans) = .ok (tickQuiet st c now) →
         (((observe cfg st).wkind = 2 ∨ ((observe cfg st).wkind = 3 ∧ m.mayEvent = false)) →
-          ¬ unixS now - m.contact > 2) → StepOK K cfg st m (.tick now ans) := by
-      intro hs hA
+          ¬ unixS now - m.contact > 2) →
+        (∀ w, gfcOf st = some (.tbw w) → c.cnt.event = true →
+          i32sub (i32sub w.reserve w.tokens) w.tokenInflight > 0 → w.tokenBatch ≥ 1 →
+          (i32sub (i32sub w.reserve w.tokens) w.tokenInflight ≥ w.tokenBatch ∨
+            now - w.lastAcquireTime ≥ batchAcquireMaxDuration) → False) →
+        StepOK K cfg st m (.tick now ans) := by
+      intro hs hA hD
       refine ⟨_, hs, ?_, ?_⟩
       · apply inv_of_cnt hi hcache rfl
         · simp [Mon.next]
@@ -2488,30 +2697,60 @@ theorem step_tick {K : Kind} {cfg : Cfg} {st : State} {m : Mon} (hi : Inv K cfg 
             have : x = { c with cnt := { c.cnt with event := false } } := by simpa [tickQuiet] using hx.symm
             subst this
             simp at he
+        · refine flInv_cache (c' := { c with cnt := { c.cnt with event := false } }) hi.fl hcache rfl rfl rfl rfl rfl
+            ?_ ?_ ?_ (by simp [Mon.next, hrb, stopsRemote]) (by simp [Mon.next, hrb, stopsRemote])
+          · intro r hr; simp only [Mon.next, effective, Bool.false_eq_true, if_false]; exact hi.fl.applied c r hcache hr
+          · intro w hw
+            have hw' : gfcOf st = some (.tbw w) := by simpa [gfcOf, hcache, tickQuiet] using hw
+            have := hi.fl.owed w hw'
+            simp only [Mon.next, hrb, stopsRemote, Bool.or_self, Bool.false_eq_true, if_false, observe_req,
+              tickQuiet_lastReq]
+            split <;> exact this
+          · intro hm; simp [Mon.next] at hm
       · simp only [judgeTrans, judgeTick, hprev, observe_req]
         have : ¬ (((observe cfg st).wkind = 2 ∨ ((observe cfg st).wkind = 3 ∧ m.mayEvent = false)) ∧
             unixS now - m.contact > 2 ∧ (tickQuiet st c now).lastReq.isNone = true) := fun h => hA h.1 h.2.1
         rw [if_neg this]
+        rw [demand _ (fun w a b c1 d e => (hD w a b c1 d e).elim)]
         cases ans <;> simp
     cases hrm : c.remote with
     | none =>
       have hg0 : gfcOf st = none := by simp [gfcOf, hcache, hrm]
       exact quiet (by simp [step, hcache, hrm]) (by rw [observe_wkind0 hg0]; simp)
+        (fun w hw => by rw [hg0] at hw; cases hw)
     | some rm =>
       obtain ⟨i, ap, g, q1, q2, q3, q4, q5, q6, q7⟩ := h5 rm hrm
       have hgf : gfcOf st = some g := by simp [gfcOf, hcache, hrm, q3]
       have hwk : (observe cfg st).wkind = GFC.wkind g := by rw [observe_wkind, hgf]; rfl
-      cases hreq : requestOf g c.cnt st.meter now with
+      have hpw : m.prev.wkind = GFC.wkind g := by rw [hprev]; exact hwk
+      cases hreq : requestOf g c.cnt st.meter st.inflight now with
       | none =>
-        refine quiet (by simp [step, hcache, hrm, q3, hreq]) ?_
-        intro hk hdue
-        rcases requestOf_due (hi.cnt.contact c hcache) hdue hreq with ⟨l, rfl⟩ | ⟨⟨w, rfl⟩, he⟩
-        · rw [hwk] at hk; simp [GFC.wkind] at hk
-        · rw [hwk] at hk
-          have := hi.cnt.may c hcache he
-          simp [GFC.wkind, this] at hk
+        refine quiet (by simp [step, hcache, hrm, q3, hreq]) ?_ ?_
+        · intro hk hdue
+          rcases requestOf_due (hi.cnt.contact c hcache) hdue hreq with ⟨l, rfl⟩ | ⟨⟨w, rfl⟩, he⟩
+          · rw [hwk] at hk; simp [GFC.wkind] at hk
+          · rw [hwk] at hk
+            have := hi.cnt.may c hcache he
+            simp [GFC.wkind, this] at hk
+        · intro w hw hev hr1 hr2 hr3
+          have : g = .tbw w := by rw [hgf] at hw; exact Option.some.inj hw
+          subst this
+          have := (demand_hits (mt := st.meter) (infl := st.inflight) hev hr1 hr2 hr3).1
+          rw [hreq] at this; cases this
       | some hits =>
         obtain ⟨a1, a2, a3⟩ := GInv_addAcquiring q6 hits
+        -- when the demand clause applies, this request asks for more than zero tokens
+        have hpos : ∀ w, gfcOf st = some (.tbw w) → c.cnt.event = true →
+            i32sub (i32sub w.reserve w.tokens) w.tokenInflight > 0 → w.tokenBatch ≥ 1 →
+            (i32sub (i32sub w.reserve w.tokens) w.tokenInflight ≥ w.tokenBatch ∨
+              now - w.lastAcquireTime ≥ batchAcquireMaxDuration) → reqPositive (some hits) = true := by
+          intro w hw hev hr1 hr2 hr3
+          have : g = .tbw w := by rw [hgf] at hw; exact Option.some.inj hw
+          subst this
+          obtain ⟨e1, e2⟩ := demand_hits (mt := st.meter) (infl := st.inflight) hev hr1 hr2 hr3
+          rw [hreq] at e1
+          have : hits = w.expectToken st.meter now := Option.some.inj e1
+          simp [reqPositive, this, e2]
         cases ans with
         | none =>
           refine ⟨tickSent st c rm (g.addAcquiring hits) { c.cnt with event := false } now hits,
@@ -2545,16 +2784,40 @@ theorem step_tick {K : Kind} {cfg : Cfg} {st : State} {m : Mon} (hi : Inv K cfg 
                   simpa [tickSent] using hx.symm
                 subst this
                 simp at he
-          · simp [judgeTrans, judgeTick, observe_req]
+            · refine flInv_cache (c' := { c with remote := some { rm with fc := some (g.addAcquiring hits) }, cnt := { c.cnt with event := false } })
+                hi.fl hcache rfl rfl rfl rfl (by simp [hrm]) ?_ ?_ ?_ (by simp [Mon.next, hrb, stopsRemote])
+                (by simp [Mon.next, hrb, stopsRemote])
+              · intro r0 hr0
+                have : r0 = { rm with fc := some (g.addAcquiring hits) } := by simpa using hr0.symm
+                subst this
+                simp only [Mon.next, effective, Bool.false_eq_true, if_false]
+                exact hi.fl.applied c rm hcache hrm
+              · intro w' hw'
+                have hg' : g.addAcquiring hits = .tbw w' := by simpa [gfcOf, tickSent] using hw'
+                cases g with
+                | empty l => simp [GFC.addAcquiring] at hg'
+                | miw w => simp [GFC.addAcquiring] at hg'
+                | tbw w =>
+                  have ho := hi.fl.owed w hgf
+                  simp only [GFC.addAcquiring, GFC.tbw.injEq] at hg'
+                  simp only [Mon.next, hrb, stopsRemote, Bool.or_self, Bool.false_eq_true, if_false, hpw, GFC.wkind,
+                    if_true, observe_req, tickSent_lastReq, Option.isSome_none]
+                  rw [← hg', ← ho]
+              · intro hm; simp [Mon.next] at hm
+          · simp only [judgeTrans, judgeTick, observe_req, tickSent_lastReq]
+            rw [demand _ (by simpa [observe_req] using hpos)]
+            simp
         | some a =>
           -- the answer goes through SetLimit
           have fin : ∀ (g' : GFC) (b : Bool),
               gfcSetLimit (g.addAcquiring hits) c.loc.config st.meter (tickReply a hits now) = .ok (g', b) →
               GInv g' ap (obAfter m.ob m.gs g'.unavail) → g'.inner.kind = K →
+              (∀ w', g' = .tbw w' → ∃ w, g = .tbw w ∧
+                w'.tokenInflight = i32add (i32add w.tokenInflight hits) (toI32 (-hits))) →
               (∀ o : Obs, o.rlim = some g'.inner → o.unavail = g'.unavail → o.req = some hits →
                 judgeSetLimit m (tickReply a hits now) o = []) →
               StepOK K cfg st m (.tick now (some a)) := by
-            intro g' b hset hg' hk' hj
+            intro g' b hset hg' hk' htk hj
             have hgf' : gfcOf (tickSent st c rm g' { event := false, lastSync := unixS now } now hits) = some g' := by
               simp [gfcOf, tickSent]
             refine ⟨tickSent st c rm g' { event := false, lastSync := unixS now } now hits,
@@ -2588,8 +2851,27 @@ theorem step_tick {K : Kind} {cfg : Cfg} {st : State} {m : Mon} (hi : Inv K cfg 
                     simpa [tickSent] using hx.symm
                   subst this
                   simp at he
+              · refine flInv_cache (c' := { c with remote := some { rm with fc := some g' }, cnt := { event := false, lastSync := unixS now } })
+                  hi.fl hcache rfl rfl rfl rfl (by simp [hrm]) ?_ ?_ ?_ (by simp [Mon.next, hrb, stopsRemote])
+                  (by simp [Mon.next, hrb, stopsRemote])
+                · intro r0 hr0
+                  have : r0 = { rm with fc := some g' } := by simpa using hr0.symm
+                  subst this
+                  simp only [Mon.next, effective, Bool.false_eq_true, if_false]
+                  exact hi.fl.applied c rm hcache hrm
+                · intro w' hw'
+                  rw [hgf'] at hw'
+                  obtain ⟨w, hw, htk'⟩ := htk w' (Option.some.inj hw')
+                  subst hw
+                  have ho := hi.fl.owed w hgf
+                  simp only [Mon.next, hrb, stopsRemote, Bool.or_self, Bool.false_eq_true, if_false, hpw, GFC.wkind,
+                    if_true, observe_req, tickSent_lastReq, Option.isSome_some]
+                  rw [htk', ho]
+                · intro hm; simp [Mon.next] at hm
             · simp only [judgeTrans, judgeTick, observe_req, tickSent_lastReq, Option.isNone_some, Bool.false_eq_true,
                 and_false, if_false, List.nil_append]
+              rw [demand _ (by simpa [observe_req] using hpos)]
+              simp only [List.append_nil]
               apply hj
               · rw [observe_rlim, hgf']; rfl
               · rw [observe_unavail, hgf']; rfl
@@ -2607,6 +2889,7 @@ theorem step_tick {K : Kind} {cfg : Cfg} {st : State} {m : Mon} (hi : Inv K cfg 
             · simp [GFC.addAcquiring, gfcSetLimit, h1, e1, bind, Except.bind, pure, Except.pure]
             · exact e2
             · exact e3
+            · intro w0 h; cases h
             · intro o o1 o2 _
               simp only [judgeSetLimit, hprev, p1, if_true, p2, p3, p4, p5, p6, hsch, Option.bind_some, hi.meter, o1, o2]
               exact e4
@@ -2622,10 +2905,625 @@ theorem step_tick {K : Kind} {cfg : Cfg} {st : State} {m : Mon} (hi : Inv K cfg 
               simp [gfcSetLimit, h1, e1, bind, Except.bind, pure, Except.pure]
             · exact e2
             · exact e3
+            · intro w0 h
+              have : w0 = w' := by cases h; rfl
+              subst this
+              refine ⟨w, rfl, ?_⟩
+              rw [tbw_setLimit_tokenInflight e1]
+              simp [TBW.noteRequest, tickReply]
             · intro o o1 o2 _
               simp only [judgeSetLimit, hprev, p1, p2, p3, p4, p5, hsch, Option.bind_some, hi.meter, o1, o2]
               exact e4
 
+/-! ## requests: acquire and release -/
+
+theorem observe_admitted (cfg : Cfg) (st : State) : (observe cfg st).admitted = st.lastAdmit := by
+  simp only [observe]
+  cases h : (st.cache.bind fun c => c.remote.bind (·.fc)) with
+  | none => rfl
+  | some g => cases g <;> rfl
+
+theorem flagOf_congr' {c c' : Cache} (h : Handle) (h1 : c'.fl.remOuter = c.fl.remOuter)
+    (h2 : c'.fl.remInner = c.fl.remInner) (hr : c'.remote.isSome = c.remote.isSome) : flagOf c' h = flagOf c h := by
+  simp [flagOf, h1, h2, hr]
+
+theorem heldOf_congr' {c c' : Cache} (hs : List Handle) (h1 : c'.fl.remOuter = c.fl.remOuter)
+    (h2 : c'.fl.remInner = c.fl.remInner) (hr : c'.remote.isSome = c.remote.isSome) :
+    heldOf (some c') hs = heldOf (some c) hs := by
+  simp only [heldOf]
+  apply List.map_congr_left
+  intro h _
+  rw [flagOf_congr' h h1 h2 hr]
+
+theorem countP_flagOf_congr' {c c' : Cache} (hs : List Handle) (h1 : c'.fl.remOuter = c.fl.remOuter)
+    (h2 : c'.fl.remInner = c.fl.remInner) (hr : c'.remote.isSome = c.remote.isSome) :
+    hs.countP (flagOf c') = hs.countP (flagOf c) := by
+  apply List.countP_congr
+  intro h _
+  rw [flagOf_congr' h h1 h2 hr]
+
+theorem filter_id_self {hs : List Handle} {id : Nat} (h : id ∉ hs.map (·.id)) :
+    hs.filter (fun x => !(x.id == id)) = hs := by
+  apply List.filter_eq_self.2
+  intro a ha
+  have : a.id ≠ id := fun e => h (e ▸ List.mem_map.2 ⟨a, ha, rfl⟩)
+  simp [this]
+
+theorem find_none_notin {hs : List Handle} {id : Nat} (h : hs.find? (·.id == id) = none) : id ∉ hs.map (·.id) := by
+  intro hm
+  obtain ⟨a, ha, e⟩ := List.mem_map.1 hm
+  have := List.find?_eq_none.1 h a ha
+  simp [e] at this
+
+theorem any_false_notin {hs : List Handle} {id : Nat} (h : hs.any (·.id == id) = false) : id ∉ hs.map (·.id) := by
+  intro hm
+  obtain ⟨a, ha, e⟩ := List.mem_map.1 hm
+  have : hs.any (·.id == id) = true := List.any_eq_true.2 ⟨a, ha, by simp [e]⟩
+  rw [h] at this; cases this
+
+/-- finishing the request `id` removes exactly its handle: the flagged ones drop by one iff it was flagged -/
+theorem countP_filter_id {p : Handle → Bool} {hs : List Handle} {h : Handle} {id : Nat}
+    (hn : (hs.map (·.id)).Nodup) (hfind : hs.find? (·.id == id) = some h) :
+    ((hs.filter fun x => !(x.id == id)).countP p : Int) = (hs.countP p : Int) - (if p h then 1 else 0) := by
+  induction hs with
+  | nil => simp at hfind
+  | cons a t ih =>
+    simp only [List.map_cons, List.nodup_cons] at hn
+    by_cases ha : a.id = id
+    · have hah : a = h := by simpa [List.find?_cons, ha] using hfind
+      subst hah
+      have hni : id ∉ t.map (·.id) := ha ▸ hn.1
+      rw [List.filter_cons]
+      simp only [ha, beq_self_eq_true, Bool.not_true, Bool.false_eq_true, if_false]
+      rw [filter_id_self hni, List.countP_cons]
+      cases p a <;> simp <;> omega
+    · have hne : (a.id == id) = false := by simp [ha]
+      have hf' : t.find? (·.id == id) = some h := by simpa [List.find?_cons, hne] using hfind
+      rw [List.filter_cons]
+      simp only [hne, Bool.not_false, if_true]
+      rw [List.countP_cons, List.countP_cons, Int.natCast_add, Int.natCast_add, ih hn.2 hf']
+      omega
+
+theorem find_mem {hs : List Handle} {h : Handle} {id : Nat} (hfind : hs.find? (·.id == id) = some h) :
+    h ∈ hs ∧ h.id = id := by
+  refine ⟨List.mem_of_find?_eq_some hfind, ?_⟩
+  have := List.find?_some hfind
+  simpa using this
+
+/-- an operation that leaves the limiters alone and changes at most the counter's event flag and the in-flight side -/
+theorem inv_of_side {K : Kind} {cfg : Cfg} {st st' : State} {m m' : Mon}
+    (hi : Inv K cfg st m)
+    (hcase : st'.cache = st.cache ∨ ∃ c c', st.cache = some c ∧ st'.cache = some c' ∧ c'.loc = c.loc ∧
+      c'.remote = c.remote ∧ c'.cnt.lastSync = c.cnt.lastSync)
+    (e_schema : m'.schema = m.schema) (e_synced : m'.synced = m.synced)
+    (e_gs : m'.gs = m.gs) (e_ob : m'.ob = if (observe cfg st').unavail then m.ob.sup m.gs else m.gs)
+    (e_prev : m'.prev = observe cfg st') (e_meter : m'.meter = st'.meter) (hmok : 0 < st'.meter.rateDen)
+    (e_sh : m'.shards = st'.shardCount) (e_hb : HBInv st'.hb m'.hist) (e_leader : m'.leader = st'.leader)
+    (e_clock : m'.clock = st'.clock) (e_contact : m'.contact = m.contact) (e_may : m'.mayEvent = true)
+    (e_fl : FlInv cfg st' m') : Inv K cfg st' m' := by
+  have hg : gfcOf st' = gfcOf st := by
+    rcases hcase with h | ⟨c, c', h1, h2, _, h4, _⟩
+    · exact gfcOf_cache h
+    · simp [gfcOf, h1, h2, h4]
+  have hun : (observe cfg st').unavail = (observe cfg st).unavail := by
+    rw [observe_unavail, observe_unavail, hg]
+  have hob : m'.ob = m.ob := by
+    rw [e_ob, hun]
+    cases hu : (observe cfg st).unavail with
+    | true => simp only [if_true]; exact sup_eq_left hi.gsob
+    | false => simp only [Bool.false_eq_true, if_false]; exact (hi.obgs hu).symm
+  refine ⟨e_meter, hmok, e_sh, e_hb, e_prev, by rw [e_gs]; exact hi.gsOK, by rw [e_gs, hob]; exact hi.gsob, ?_, ?_,
+    e_leader, ?_, e_fl⟩
+  · intro hu
+    rw [hob, e_gs]
+    exact hi.obgs (by rw [← hun]; exact hu)
+  · rcases hcase with h | ⟨c, c', h1, h2, h3, h4, _⟩
+    · rw [h]; exact CInv_congr hi.cache e_schema e_synced e_gs hob
+    · have h := hi.cache
+      rw [h1] at h
+      rw [h2]
+      unfold CInv at *
+      rw [e_schema, e_synced, e_gs, hob]
+      cases hs : m.schema with
+      | none => rw [hs] at h; exact h.elim
+      | some s =>
+        rw [hs] at h
+        show c'.loc.config = s ∧ VS K s ∧ c'.loc.fc = some (limOf s) ∧ m.synced = c'.remote.isSome ∧
+          ∀ r, c'.remote = some r → RInv K r m.gs m.ob
+        rw [h3, h4]; exact h
+  · refine ⟨e_clock, by rw [e_contact]; exact hi.cnt.contact0, ?_, fun _ _ _ => e_may⟩
+    intro x hx
+    rw [e_contact]
+    rcases hcase with h | ⟨c, c', h1, h2, _, _, h5⟩
+    · exact hi.cnt.contact x (by rw [← h]; exact hx)
+    · have : x = c' := by rw [h2] at hx; exact (Option.some.inj hx).symm
+      subst this
+      rw [h5]; exact hi.cnt.contact c h1
+
+/-- the shared part of the two request operations -/
+theorem stepOK_request {K : Kind} {cfg : Cfg} {st : State} {m : Mon} {op : Op}
+    (hop : (∃ id, op = .acquire id) ∨ (∃ id, op = .release id)) (hi : Inv K cfg st m) (st' : State)
+    (hs : step st op = .ok st')
+    (hm : st'.meter = st.meter) (hsh : st'.shardCount = st.shardCount) (hhb : st'.hb = st.hb)
+    (hl : st'.leader = st.leader) (hck : st'.clock = st.clock)
+    (hcase : st'.cache = st.cache ∨ ∃ c c', st.cache = some c ∧ st'.cache = some c' ∧ c'.loc = c.loc ∧
+      c'.remote = c.remote ∧ c'.cnt.lastSync = c.cnt.lastSync)
+    (hfl : FlInv cfg st' (m.next op (observe cfg st')))
+    (hj : judgeTrans m op (observe cfg st') = []) : StepOK K cfg st m op := by
+  refine ⟨st', hs, ?_, hj⟩
+  apply inv_of_side hi hcase
+  · rcases hop with ⟨id, rfl⟩ | ⟨id, rfl⟩ <;> simp [Mon.next]
+  · rcases hop with ⟨id, rfl⟩ | ⟨id, rfl⟩ <;> simp [Mon.next, effective]
+  · rcases hop with ⟨id, rfl⟩ | ⟨id, rfl⟩ <;> simp [Mon.next, effective]
+  · rcases hop with ⟨id, rfl⟩ | ⟨id, rfl⟩ <;> simp [Mon.next, effective]
+  · rfl
+  · rcases hop with ⟨id, rfl⟩ | ⟨id, rfl⟩ <;> simp [Mon.next, hm] <;> exact hi.meter
+  · rw [hm]; exact hi.meterOK
+  · rcases hop with ⟨id, rfl⟩ | ⟨id, rfl⟩ <;> simp [Mon.next, hsh] <;> exact hi.shards
+  · rcases hop with ⟨id, rfl⟩ | ⟨id, rfl⟩ <;> simp [Mon.next, leaderChange, hhb] <;> exact hi.hb
+  · rcases hop with ⟨id, rfl⟩ | ⟨id, rfl⟩ <;> simp [Mon.next, leaderChange, hl] <;> exact hi.leader
+  · rcases hop with ⟨id, rfl⟩ | ⟨id, rfl⟩ <;> simp [Mon.next, hck] <;> exact hi.cnt.clock
+  · rcases hop with ⟨id, rfl⟩ | ⟨id, rfl⟩ <;> simp [Mon.next, effective]
+  · rcases hop with ⟨id, rfl⟩ | ⟨id, rfl⟩ <;> simp [Mon.next]
+  · exact hfl
+
+/-- a new handle while a schema is cached -/
+theorem flInv_push {cfg : Cfg} {st st' : State} {m m' : Mon} {c c' : Cache} {h : Handle} (hf : FlInv cfg st m)
+    (hc : st.cache = some c) (hc' : st'.cache = some c') (hh : st'.handles = h :: st.handles)
+    (hid : st.handles.any (·.id == h.id) = false) (hv : st'.cfgv = st.cfgv)
+    (hrem : c'.remote = c.remote) (ho : c'.fl.remOuter = c.fl.remOuter) (hn : c'.fl.remInner = c.fl.remInner)
+    (hcount : c'.fl.remCount = c.fl.remCount + (if flagOf c h then 1 else 0))
+    (hgen : h.side = .rem → h.gen = c.fl.remOuter ∧ h.inner = c.fl.remInner)
+    (hev : c.cnt.event = true → c'.cnt.event = true)
+    (e1 : m'.applied = m.applied) (e2 : m'.owed = m.owed) (e3 : m'.mustEvent = m.mustEvent)
+    (e4 : m'.held = (h.id, flagOf c h) :: m.held) (e5 : m'.tainted = m.tainted) : FlInv cfg st' m' := by
+  have hrs : c'.remote.isSome = c.remote.isSome := by rw [hrem]
+  have hg : gfcOf st' = gfcOf st := by simp [gfcOf, hc, hc', hrem]
+  refine ⟨by rw [hv]; exact hf.cfgv, ?_, ?_, ?_, ?_, ?_, ?_, ?_, ?_⟩
+  · intro x r a b
+    have : x = c' := by rw [hc'] at a; exact (Option.some.inj a).symm
+    subst this
+    rw [e1]; exact hf.applied c r hc (by rw [← hrem]; exact b)
+  · intro w a; rw [e2]; exact hf.owed w (by rw [← hg]; exact a)
+  · intro a
+    rw [e3] at a
+    obtain ⟨c0, g, k1, k2, k3, k4⟩ := hf.must a
+    have : c0 = c := by rw [hc] at k1; exact (Option.some.inj k1).symm
+    subst this
+    exact ⟨c', g, hc', by rw [hg]; exact k2, k3, hev k4⟩
+  · rw [e4, hf.held, hc, hc', hh]
+    show _ = (h.id, flagOf c' h) :: heldOf (some c') st.handles
+    rw [flagOf_congr' h ho hn hrs, heldOf_congr' _ ho hn hrs]
+  · rw [hh, List.map_cons, List.nodup_cons]
+    exact ⟨any_false_notin hid, hf.nodup⟩
+  · intro x a
+    have : x = c' := by rw [hc'] at a; exact (Option.some.inj a).symm
+    subst this
+    rw [hh, ho, hn]
+    intro h0 hm hs
+    rcases List.mem_cons.1 hm with e | hm
+    · subst e
+      obtain ⟨g1, g2⟩ := hgen hs
+      exact ⟨Nat.le_of_eq g1, Nat.le_of_eq g2⟩
+    · exact hf.gens c hc h0 hm hs
+  · intro a; rw [hc'] at a; cases a
+  · intro a x b
+    have : x = c' := by rw [hc'] at b; exact (Option.some.inj b).symm
+    subst this
+    obtain ⟨k1, k2⟩ := hf.cur (by rw [← e5]; exact a) c hc
+    refine ⟨?_, ?_⟩
+    · rw [hh, List.countP_cons, countP_flagOf_congr' _ ho hn hrs, flagOf_congr' h ho hn hrs, hcount, k1]
+      cases flagOf c h <;> simp
+    · rw [hh, ho, hn, hrs]
+      intro h0 hm hs hgn hsm
+      rcases List.mem_cons.1 hm with e | hm
+      · subst e; exact (hgen hs).2
+      · exact k2 h0 hm hs hgn hsm
+
+/-- a new handle on the system default limiter: nothing is cached -/
+theorem flInv_push_none {cfg : Cfg} {st st' : State} {m m' : Mon} {h : Handle} (hf : FlInv cfg st m)
+    (hc : st.cache = none) (hc' : st'.cache = none) (hh : st'.handles = h :: st.handles)
+    (hid : st.handles.any (·.id == h.id) = false) (hv : st'.cfgv = st.cfgv) (hside : h.side = .dflt)
+    (e3 : m'.mustEvent = m.mustEvent)
+    (e4 : m'.held = (h.id, false) :: m.held) : FlInv cfg st' m' := by
+  have hg : gfcOf st' = none := by simp [gfcOf, hc']
+  refine ⟨by rw [hv]; exact hf.cfgv, ?_, ?_, ?_, ?_, ?_, ?_, ?_, ?_⟩
+  · intro x r a; rw [hc'] at a; cases a
+  · intro w a; rw [hg] at a; cases a
+  · intro a
+    rw [e3] at a
+    obtain ⟨c0, g, k1, _⟩ := hf.must a
+    rw [hc] at k1; cases k1
+  · rw [e4, hf.held, hc, hc', hh]; rfl
+  · rw [hh, List.map_cons, List.nodup_cons]
+    exact ⟨any_false_notin hid, hf.nodup⟩
+  · intro x a; rw [hc'] at a; cases a
+  · intro _ h0 hm
+    rw [hh] at hm
+    rcases List.mem_cons.1 hm with e | hm
+    · subst e; exact hside
+    · exact hf.nocache hc h0 hm
+  · intro _ x b; rw [hc'] at b; cases b
+
+theorem load_none {cfg : Cfg} {st : State} (h : st.cache = none) : load cfg st = .dflt := by simp [load, h]
+
+theorem load_some {cfg : Cfg} {st : State} {c : Cache} (h : st.cache = some c) : load cfg st ≠ .dflt := by
+  simp only [load, h]
+  cases cfg.rateLimiter <;> simp
+  repeat' split
+  all_goals simp
+
+theorem load_remote {cfg : Cfg} {st : State} {c : Cache} (h : st.cache = some c) (hl : load cfg st = .remote) :
+    c.remote.isSome = true := by
+  cases hs : c.remote.isSome with
+  | true => rfl
+  | false =>
+    exfalso
+    revert hl
+    simp only [load, h, hs]
+    cases cfg.rateLimiter <;> simp
+
+theorem step_acquire {K : Kind} {cfg : Cfg} {st : State} {m : Mon} (hi : Inv K cfg st m) (id : Nat) :
+    StepOK K cfg st m (.acquire id) := by
+  have hprev := hi.prev
+  have hrb : rebuilds m (.acquire id) = false := by simp [rebuilds, effective]
+  have hsr : stopsRemote m (.acquire id) = false := rfl
+  have hany : m.held.any (·.1 == id) = st.handles.any (·.id == id) := by rw [hi.fl.held, heldOf_any]
+  have hch : m.prev.choice = load cfg st := by rw [hprev, observe_choice]
+  have hcv := hi.fl.cfgv
+  have hop : (∃ i, Op.acquire id = .acquire i) ∨ (∃ i, Op.acquire id = .release i) := Or.inl ⟨id, rfl⟩
+  -- nothing but the reported result changes, and a new admission is not reported
+  have frame : ∀ la : Option Bool, (la = some true → st.handles.any (·.id == id) = true) →
+      acquireStep st id = { st with lastAdmit := la } → StepOK K cfg st m (.acquire id) := by
+    intro la hla hs
+    have hnot : ¬ (la = some true ∧ (!(m.held.any (·.1 == id))) = true) := by
+      intro ⟨a, b⟩; rw [hany, hla a] at b; cases b
+    apply stepOK_request hop hi { st with lastAdmit := la } (by simp [step, hs]) rfl rfl rfl rfl rfl (Or.inl rfl)
+    · apply flInv_frame hi.fl
+      · rfl
+      · rfl
+      · rfl
+      · simp [Mon.next, effective]
+      · simp [Mon.next, hrb, hsr]
+      · simp [Mon.next, hrb, hsr]
+      · simp only [Mon.next, hrb, hsr, Bool.or_self, Bool.false_eq_true, if_false, observe_admitted]
+        rw [if_neg hnot]
+      · simp [Mon.next, hrb, hsr]
+    · simp only [judgeTrans, judgeAcquire, observe_admitted]
+      rw [if_neg]
+      intro h; exact hnot ⟨h.1, h.2.1⟩
+  cases hheld : st.handles.any (·.id == id) with
+  | true => exact frame st.lastAdmit (fun _ => hheld) (by simp [acquireStep, hheld])
+  | false =>
+  have hnh : (!(m.held.any (·.1 == id))) = true := by rw [hany, hheld]; rfl
+  cases hcache : st.cache with
+  | none =>
+    have hld : load cfg st = .dflt := load_none hcache
+    apply stepOK_request hop hi
+      { st with lastAdmit := some true, handles := { id := id, side := .dflt, gen := 0 } :: st.handles }
+      (by simp [step, acquireStep, hheld, hcv, hld, hcache]) rfl rfl rfl rfl rfl (Or.inl rfl)
+    · apply flInv_push_none (h := { id := id, side := .dflt, gen := 0 }) hi.fl hcache
+      · exact hcache
+      · rfl
+      · exact hheld
+      · rfl
+      · rfl
+      · simp [Mon.next, hrb, hsr]
+      · simp only [Mon.next, hrb, hsr, Bool.or_self, Bool.false_eq_true, if_false, observe_admitted, hnh, and_self,
+          if_true, hch, hld]
+        rfl
+    · simp only [judgeTrans, judgeAcquire, hch, hld]
+      rw [if_neg]
+      intro h; exact absurd h.2.2.1 (by decide)
+  | some c =>
+  have hcc := hi.cache
+  unfold CInv at hcc
+  cases hsch : m.schema with
+  | none => rw [hcache, hsch] at hcc; exact hcc.elim
+  | some s =>
+  rw [hcache, hsch] at hcc
+  obtain ⟨h1, h2, h3, h4, h5⟩ := hcc
+  have hnd := load_some (cfg := cfg) hcache
+  cases hld : load cfg st with
+  | dflt => exact absurd hld hnd
+  | loc =>
+    cases hadm : (limOf s).admits c.fl.locCount with
+    | false =>
+      exact frame (some false) (fun h => by cases h) (by simp [acquireStep, hheld, hcv, hld, hcache, h3, hadm])
+    | true =>
+      apply stepOK_request hop hi
+        { st with lastAdmit := some true, inflight := st.inflight + 1,
+                  handles := { id := id, side := .loc, gen := c.fl.locGen } :: st.handles,
+                  cache := some { c with fl := { c.fl with locCount := c.fl.locCount + 1 } } }
+        (by simp [step, acquireStep, hheld, hcv, hld, hcache, h3, hadm]) rfl rfl rfl rfl rfl
+        (Or.inr ⟨c, _, hcache, rfl, rfl, rfl, rfl⟩)
+      · have hflag : flagOf c { id := id, side := .loc, gen := c.fl.locGen } = false := by simp [flagOf]
+        apply flInv_push (h := { id := id, side := .loc, gen := c.fl.locGen }) hi.fl hcache
+        · rfl
+        · rfl
+        · exact hheld
+        · rfl
+        · rfl
+        · rfl
+        · rfl
+        · rw [hflag]; simp
+        · intro h; cases h
+        · exact fun h => h
+        · simp [Mon.next, effective]
+        · simp [Mon.next, hrb, hsr]
+        · simp [Mon.next, hrb, hsr]
+        · simp only [Mon.next, hrb, hsr, Bool.or_self, Bool.false_eq_true, if_false, observe_admitted, hnh, and_self,
+            if_true, hch, hld, hflag]
+          rfl
+        · simp [Mon.next, hrb, hsr]
+      · simp only [judgeTrans, judgeAcquire, hch, hld]
+        rw [if_neg]
+        intro h; exact absurd h.2.2.1 (by decide)
+  | remote =>
+    have hsome := load_remote hcache hld
+    cases hrm : c.remote with
+    | none => rw [hrm] at hsome; cases hsome
+    | some rm =>
+    obtain ⟨i, ap, g, q1, q2, q3, q4, q5, q6, q7⟩ := h5 rm hrm
+    have hgf : gfcOf st = some g := by simp [gfcOf, hcache, hrm, q3]
+    have hbind : c.remote.bind (·.fc) = some g := by simp [hrm, q3]
+    obtain ⟨ev, hev⟩ : ∃ ev : Bool, ev = g.acquireEvent st.inflight := ⟨_, rfl⟩
+    obtain ⟨cnt', hcnt'⟩ : ∃ cnt' : Counter, cnt' = if ev then { c.cnt with event := true } else c.cnt := ⟨_, rfl⟩
+    have hcl : cnt'.lastSync = c.cnt.lastSync := by rw [hcnt']; split <;> rfl
+    have hce : c.cnt.event = true → cnt'.event = true := by rw [hcnt']; intro h; split <;> simp [h]
+    cases hadm : g.inner.admits c.fl.remCount with
+    | false =>
+      apply stepOK_request hop hi { st with lastAdmit := some false, cache := some { c with cnt := cnt' } }
+        (by
+          subst hcnt' hev
+          simp only [step, acquireStep, hheld, Bool.false_eq_true, if_false, hcv, hld, hcache, hbind, hadm, if_true]) rfl rfl rfl rfl rfl
+        (Or.inr ⟨c, _, hcache, rfl, rfl, rfl, hcl⟩)
+      · refine flInv_cache (c' := { c with cnt := cnt' }) hi.fl hcache rfl rfl rfl rfl rfl ?_ ?_ ?_ ?_ ?_
+        · intro r hr; simp only [Mon.next, effective, Bool.false_eq_true, if_false]; exact hi.fl.applied c r hcache hr
+        · intro w hw
+          have hw' : gfcOf st = some (.tbw w) := by simpa [gfcOf, hcache] using hw
+          have := hi.fl.owed w hw'
+          simp only [Mon.next, hrb, hsr, Bool.or_self, Bool.false_eq_true, if_false]
+          split <;> exact this
+        · intro hm
+          have hm' : m.mustEvent = true := by simpa [Mon.next, hrb, hsr] using hm
+          obtain ⟨c0, g0, k1, k2, k3, k4⟩ := hi.fl.must hm'
+          have : c0 = c := by rw [hcache] at k1; exact (Option.some.inj k1).symm
+          subst this
+          exact ⟨g0, by simpa [gfcOf, hcache] using k2, k3, hce k4⟩
+        · simp only [Mon.next, hrb, hsr, Bool.or_self, Bool.false_eq_true, if_false, observe_admitted]
+          rw [if_neg]; intro h; cases h.1
+        · simp [Mon.next, hrb, hsr]
+      · simp only [judgeTrans, judgeAcquire, observe_admitted]
+        rw [if_neg]; intro h; cases h.1
+    | true =>
+      have hflag : flagOf c { id := id, side := .rem, gen := c.fl.remOuter, inner := c.fl.remInner } = true := by
+        simp [flagOf, hrm]
+      apply stepOK_request hop hi
+        { st with lastAdmit := some true, inflight := st.inflight + 1,
+                  handles := { id := id, side := .rem, gen := c.fl.remOuter, inner := c.fl.remInner } :: st.handles,
+                  cache := some { c with cnt := cnt', fl := { c.fl with remCount := c.fl.remCount + 1 } } }
+        (by
+          subst hcnt' hev
+          simp only [step, acquireStep, hheld, Bool.false_eq_true, if_false, hcv, hld, hcache, hbind, hadm, if_true]) rfl rfl rfl rfl rfl
+        (Or.inr ⟨c, _, hcache, rfl, rfl, rfl, hcl⟩)
+      · apply flInv_push (h := { id := id, side := .rem, gen := c.fl.remOuter, inner := c.fl.remInner }) hi.fl hcache
+        · rfl
+        · rfl
+        · exact hheld
+        · rfl
+        · rfl
+        · rfl
+        · rfl
+        · rw [hflag]; simp
+        · intro _; exact ⟨rfl, rfl⟩
+        · exact hce
+        · simp [Mon.next, effective]
+        · simp [Mon.next, hrb, hsr]
+        · simp [Mon.next, hrb, hsr]
+        · simp only [Mon.next, hrb, hsr, Bool.or_self, Bool.false_eq_true, if_false, observe_admitted, hnh, and_self,
+            if_true, hch, hld, hflag]
+          rfl
+        · simp [Mon.next, hrb, hsr]
+      · -- the in-flight clause: the bucket's count is the number of flagged handles, its size within the bound
+        simp only [judgeTrans, judgeAcquire]
+        rw [if_neg]
+        intro ⟨_, _, _, ht, hmi, hbad⟩
+        apply hbad
+        have hob : g.unavail = false → m.ob = m.gs := by
+          intro hu
+          apply hi.obgs
+          rw [observe_unavail, hgf]; simpa using hu
+        have hleb := GInv_leb q6 q5 q4 (VS_kind h2) hob
+        have hrl : m.prev.rlim = some g.inner := by rw [hprev, observe_rlim, hgf]; rfl
+        rw [hrl] at hmi
+        obtain ⟨k1, _⟩ := hi.fl.cur ht c hcache
+        rw [hi.fl.held, hcache, heldOf_countP, ← k1]
+        cases hin : g.inner with
+        | exempt x => rw [hin] at hmi; simp [isMI] at hmi
+        | tb q u => rw [hin] at hmi; simp [isMI] at hmi
+        | mi size =>
+          rw [hin] at hleb hadm
+          simp [Lim.leb] at hleb
+          simp [Lim.admits] at hadm
+          omega
+
+/-- a handle goes away while a schema is cached -/
+theorem flInv_pop {cfg : Cfg} {st st' : State} {m m' : Mon} {c c' : Cache} {h : Handle} {id : Nat}
+    (hf : FlInv cfg st m) (hc : st.cache = some c) (hc' : st'.cache = some c')
+    (hfind : st.handles.find? (·.id == id) = some h)
+    (hh : st'.handles = st.handles.filter (fun x => !(x.id == id))) (hv : st'.cfgv = st.cfgv)
+    (hrem : c'.remote = c.remote) (ho : c'.fl.remOuter = c.fl.remOuter) (hn : c'.fl.remInner = c.fl.remInner)
+    (hcount : m.tainted = false → c'.fl.remCount = c.fl.remCount - (if flagOf c h then 1 else 0))
+    (hev : c.cnt.event = true → c'.cnt.event = true)
+    (e1 : m'.applied = m.applied) (e2 : m'.owed = m.owed) (e3 : m'.mustEvent = m.mustEvent)
+    (e4 : m'.held = m.held.filter (fun x => !(x.1 == id))) (e5 : m'.tainted = m.tainted) : FlInv cfg st' m' := by
+  have hrs : c'.remote.isSome = c.remote.isSome := by rw [hrem]
+  have hg : gfcOf st' = gfcOf st := by simp [gfcOf, hc, hc', hrem]
+  have hsub : ∀ x, x ∈ st'.handles → x ∈ st.handles := by
+    intro x hx; rw [hh] at hx; exact (List.mem_filter.1 hx).1
+  refine ⟨by rw [hv]; exact hf.cfgv, ?_, ?_, ?_, ?_, ?_, ?_, ?_, ?_⟩
+  · intro x r a b
+    have : x = c' := by rw [hc'] at a; exact (Option.some.inj a).symm
+    subst this
+    rw [e1]; exact hf.applied c r hc (by rw [← hrem]; exact b)
+  · intro w a; rw [e2]; exact hf.owed w (by rw [← hg]; exact a)
+  · intro a
+    rw [e3] at a
+    obtain ⟨c0, g, k1, k2, k3, k4⟩ := hf.must a
+    have : c0 = c := by rw [hc] at k1; exact (Option.some.inj k1).symm
+    subst this
+    exact ⟨c', g, hc', by rw [hg]; exact k2, k3, hev k4⟩
+  · rw [e4, hf.held, hc, heldOf_filter, hc', hh, heldOf_congr' _ ho hn hrs]
+  · rw [hh]
+    exact ((List.filter_sublist).map _).nodup hf.nodup
+  · intro x a
+    have : x = c' := by rw [hc'] at a; exact (Option.some.inj a).symm
+    subst this
+    rw [ho, hn]
+    intro h0 hm hs
+    exact hf.gens c hc h0 (hsub h0 hm) hs
+  · intro a; rw [hc'] at a; cases a
+  · intro a x b
+    have : x = c' := by rw [hc'] at b; exact (Option.some.inj b).symm
+    subst this
+    have ht : m.tainted = false := by rw [← e5]; exact a
+    obtain ⟨k1, k2⟩ := hf.cur ht c hc
+    refine ⟨?_, ?_⟩
+    · rw [hh, countP_flagOf_congr' _ ho hn hrs, countP_filter_id hf.nodup hfind, hcount ht, k1]
+    · rw [ho, hn, hrs]
+      intro h0 hm hs hgn hsm
+      exact k2 h0 (hsub h0 hm) hs hgn hsm
+
+/-- a handle goes away while nothing is cached -/
+theorem flInv_pop_none {cfg : Cfg} {st st' : State} {m m' : Mon} {id : Nat}
+    (hf : FlInv cfg st m) (hc : st.cache = none) (hc' : st'.cache = none)
+    (hh : st'.handles = st.handles.filter (fun x => !(x.id == id))) (hv : st'.cfgv = st.cfgv)
+    (e3 : m'.mustEvent = m.mustEvent)
+    (e4 : m'.held = m.held.filter (fun x => !(x.1 == id))) : FlInv cfg st' m' := by
+  have hg : gfcOf st' = none := by simp [gfcOf, hc']
+  refine ⟨by rw [hv]; exact hf.cfgv, ?_, ?_, ?_, ?_, ?_, ?_, ?_, ?_⟩
+  · intro x r a; rw [hc'] at a; cases a
+  · intro w a; rw [hg] at a; cases a
+  · intro a
+    rw [e3] at a
+    obtain ⟨c0, g, k1, _⟩ := hf.must a
+    rw [hc] at k1; cases k1
+  · rw [e4, hf.held, hc, heldOf_filter, hc', hh]
+  · rw [hh]
+    exact ((List.filter_sublist).map _).nodup hf.nodup
+  · intro x a; rw [hc'] at a; cases a
+  · intro _ h0 hm
+    rw [hh] at hm
+    exact hf.nocache hc h0 (List.mem_filter.1 hm).1
+  · intro _ x b; rw [hc'] at b; cases b
+
+theorem step_release {K : Kind} {cfg : Cfg} {st : State} {m : Mon} (hi : Inv K cfg st m) (id : Nat) :
+    StepOK K cfg st m (.release id) := by
+  have hrb : rebuilds m (.release id) = false := by simp [rebuilds, effective]
+  have hsr : stopsRemote m (.release id) = false := rfl
+  have hop : (∃ i, Op.release id = .acquire i) ∨ (∃ i, Op.release id = .release i) := Or.inr ⟨id, rfl⟩
+  cases hfind : st.handles.find? (·.id == id) with
+  | none =>
+    -- no such request: nothing happens
+    apply stepOK_request hop hi st (by simp [step, releaseStep, hfind]) rfl rfl rfl rfl rfl (Or.inl rfl)
+    · apply flInv_frame hi.fl
+      · rfl
+      · rfl
+      · rfl
+      · simp [Mon.next, effective]
+      · simp [Mon.next, hrb, hsr]
+      · simp [Mon.next, hrb, hsr]
+      · simp only [Mon.next, hrb, hsr, Bool.or_self, Bool.false_eq_true, if_false]
+        rw [hi.fl.held, heldOf_filter, filter_id_self (find_none_notin hfind)]
+      · simp [Mon.next, hrb, hsr]
+    · rfl
+  | some h =>
+  obtain ⟨hmem, _⟩ := find_mem hfind
+  cases hcache : st.cache with
+  | none =>
+    have fin0 : ∀ infl : Int,
+        releaseStep st id = { st with handles := st.handles.filter (fun x => !(x.id == id)), inflight := infl } →
+        StepOK K cfg st m (.release id) := by
+      intro infl hs
+      apply stepOK_request hop hi _ (by simp only [step, hs]) rfl rfl rfl rfl rfl (Or.inl rfl)
+      · apply flInv_pop_none (id := id) hi.fl hcache
+        · exact hcache
+        · rfl
+        · rfl
+        · simp [Mon.next, hrb, hsr]
+        · simp only [Mon.next, hrb, hsr, Bool.or_self, Bool.false_eq_true, if_false]
+      · rfl
+    cases hside : h.side with
+    | dflt => exact fin0 st.inflight (by simp [releaseStep, hfind, hside])
+    | loc => exact fin0 (st.inflight - 1) (by simp [releaseStep, hfind, hside, hcache])
+    | rem => exact fin0 (st.inflight - 1) (by simp [releaseStep, hfind, hside, hcache])
+  | some c =>
+    have fin1 : ∀ (c' : Cache) (infl : Int),
+        releaseStep st id = { st with handles := st.handles.filter (fun x => !(x.id == id)), inflight := infl,
+                                      cache := some c' } →
+        c'.loc = c.loc → c'.remote = c.remote → c'.cnt.lastSync = c.cnt.lastSync →
+        (c.cnt.event = true → c'.cnt.event = true) →
+        c'.fl.remOuter = c.fl.remOuter → c'.fl.remInner = c.fl.remInner →
+        (m.tainted = false → c'.fl.remCount = c.fl.remCount - (if flagOf c h then 1 else 0)) →
+        StepOK K cfg st m (.release id) := by
+      intro c' infl hs hloc hrem hls hev ho hn hcount
+      apply stepOK_request hop hi _ (by simp only [step, hs]) rfl rfl rfl rfl rfl
+        (Or.inr ⟨c, c', hcache, rfl, hloc, hrem, hls⟩)
+      · apply flInv_pop (id := id) (h := h) hi.fl hcache
+        · rfl
+        · exact hfind
+        · rfl
+        · rfl
+        · exact hrem
+        · exact ho
+        · exact hn
+        · exact hcount
+        · exact hev
+        · simp [Mon.next, effective]
+        · simp [Mon.next, hrb, hsr]
+        · simp [Mon.next, hrb, hsr]
+        · simp only [Mon.next, hrb, hsr, Bool.or_self, Bool.false_eq_true, if_false]
+        · simp [Mon.next, hrb, hsr]
+      · rfl
+    cases hside : h.side with
+    | dflt =>
+      have hflag : flagOf c h = false := by simp [flagOf, hside]
+      exact fin1 c st.inflight (by simp [releaseStep, hfind, hside, hcache]) rfl rfl rfl (fun x => x) rfl rfl
+        (fun _ => by rw [hflag]; simp)
+    | loc =>
+      have hflag : flagOf c h = false := by simp [flagOf, hside]
+      by_cases hg : h.gen = c.fl.locGen
+      · exact fin1 { c with fl := { c.fl with locCount := decCount c.fl.locCount } } (st.inflight - 1)
+          (by simp [releaseStep, hfind, hside, hcache, hg]) rfl rfl rfl (fun x => x) rfl rfl
+          (fun _ => by rw [hflag]; simp)
+      · exact fin1 c (st.inflight - 1) (by simp [releaseStep, hfind, hside, hcache, hg]) rfl rfl rfl (fun x => x) rfl rfl
+          (fun _ => by rw [hflag]; simp)
+    | rem =>
+      by_cases hg : h.gen = c.fl.remOuter ∧ c.remote.isSome = true
+      · refine fin1 { c with fl := { c.fl with remCount := decCount c.fl.remCount },
+                             cnt := if c.releaseEvent then { c.cnt with event := true } else c.cnt } (st.inflight - 1)
+          (by simp [releaseStep, hfind, hside, hcache, hg]) rfl rfl (by simp only []; split <;> rfl)
+          (fun x => by simp only []; split <;> simp [x]) rfl rfl ?_
+        intro ht
+        obtain ⟨k1, k2⟩ := hi.fl.cur ht c hcache
+        have hin := k2 h hmem hside hg.1 hg.2
+        have hflag : flagOf c h = true := by simp [flagOf, hside, hg.1, hg.2, hin]
+        have hpos : 0 < st.handles.countP (flagOf c) := List.countP_pos_iff.2 ⟨h, hmem, hflag⟩
+        simp only [hflag, if_true, decCount]
+        rw [k1]
+        split <;> omega
+      · have hflag : flagOf c h = false := by
+          simp only [flagOf, hside]
+          by_cases h1 : h.gen = c.fl.remOuter
+          · have : c.remote.isSome = false := by
+              cases hs : c.remote.isSome with
+              | false => rfl
+              | true => exact absurd ⟨h1, hs⟩ hg
+            simp [this]
+          · simp [h1]
+        exact fin1 c (st.inflight - 1) (by simp [releaseStep, hfind, hside, hcache, hg]) rfl rfl rfl (fun x => x) rfl rfl
+          (fun _ => by rw [hflag]; simp)
 
 /-- every operation allowed by `OpOK` runs without panic, preserves the invariant, and the judge accepts it -/
 theorem step_inv {K : Kind} {cfg : Cfg} {st : State} {m : Mon} {op : Op} (hi : Inv K cfg st m) (hop : OpOK K op) :
@@ -2642,6 +3540,8 @@ theorem step_inv {K : Kind} {cfg : Cfg} {st : State} {m : Mon} {op : Op} (hi : I
     | meter x => exact step_meter hi x hop
     | setLimit r => exact step_setLimit hi r
     | event => exact step_event hi
+    | acquire id => exact step_acquire hi id
+    | release id => exact step_release hi id
     | tick now ans => exact step_tick hi now ans
   obtain ⟨st', h1, h2, h3⟩ := h
   refine ⟨st', h1, h2, ?_⟩
